@@ -50,12 +50,33 @@ def tok_of_name(s, prefix):
     return int(s[len(prefix):])
 
 
-def rc_name(rc):
-    if 0 <= rc < len(STD_RC):
-        return STD_RC[rc]
-    if rc >= 10000:
-        return 'CUSTOM_RC%d' % rc
-    return 'CUSTOM_NOPE'
+def rc_name(n):
+    """resource class NAME token -> name: standard class i is token i, custom names are >= 1000"""
+    if 0 <= n < len(STD_RC):
+        return STD_RC[n]
+    assert n >= 1000, n
+    return 'CUSTOM_N%d' % (n - 1000)
+
+
+def rc_tok(name):
+    if name in STD_RC:
+        return STD_RC.index(name)
+    assert name.startswith('CUSTOM_N'), name
+    return 1000 + int(name[len('CUSTOM_N'):])
+
+
+def rc_map(dump):
+    """name token -> id, from the canonical dump (table 7: [id, name token])"""
+    return {row[1]: row[0] for row in dump[7]}
+
+
+_RCMAP = {}
+
+
+def rcid(n):
+    if 0 <= n < len(STD_RC):
+        return n
+    return _RCMAP.get(n, -1)
 
 
 def trait_name(t):
@@ -103,12 +124,12 @@ def lst(items):
 def inv_coq(i):
     m, e = ratio_me(i['ratio'])
     return '(mkInvIn %s %s %s %s %s %s %s %s)' % (
-        z(i['rc']), z(i['total']), z(i['reserved']), z(i['min']), z(i['max']),
+        z(rcid(i['rc'])), z(i['total']), z(i['reserved']), z(i['min']), z(i['max']),
         z(i['step']), z(m), z(e))
 
 
 def allocs_coq(al):
-    return lst('(mkAllocIn %s %s)' % (z(rp), lst('(%s, %s)' % (z(rc), z(a)) for rc, a in res))
+    return lst('(mkAllocIn %s %s)' % (z(rp), lst('(%s, %s)' % (z(rcid(rc)), z(a)) for rc, a in res))
                for rp, res in al)
 
 
@@ -118,8 +139,17 @@ def cons_coq(c):
         oz(c.get('gen')), oz(c.get('type')))
 
 
-def op_coq(op):
+def op_coq(op, rcmap=None):
+    """rcmap: resource class name token -> id in the state the request is issued in"""
+    global _RCMAP
+    _RCMAP = rcmap or {}
     k = op[0]
+    if k in ('rc_create', 'rc_put', 'rc_delete', 'trait_put', 'trait_delete'):
+        cons = {'rc_create': 'RcCreate', 'rc_put': 'RcPut', 'rc_delete': 'RcDelete',
+                'trait_put': 'TraitPut', 'trait_delete': 'TraitDelete'}[k]
+        return '(%s %s %s)' % (cons, z(op[1]), z(op[2]))
+    if k == 'rc_rename':
+        return '(RcRename %s %s %s)' % (z(op[1]), z(op[2]), z(op[3]))
     if k == 'rp_create':
         _, v, u, name, parent = op
         return '(RpCreate %s %s %s %s)' % (z(v), z(u), z(name), oz(parent))
@@ -139,7 +169,7 @@ def op_coq(op):
         _, v, u, g, i = op
         return '(InvPut %s %s %s %s)' % (z(v), z(u), z(g), inv_coq(i))
     if k == 'inv_delete':
-        return '(InvDelete %s %s)' % (z(op[1]), z(op[2]))
+        return '(InvDelete %s %s)' % (z(op[1]), z(rcid(op[2])))
     if k == 'inv_delete_all':
         return '(InvDeleteAll %s %s)' % (z(op[1]), z(op[2]))
     if k == 'traits_set':
@@ -206,6 +236,18 @@ def alloc_body(v, c):
 def op_http(op):
     """-> (method, path, body, version)"""
     k = op[0]
+    if k == 'rc_create':
+        return ('POST', '/resource_classes', {'name': rc_name(op[2])}, ver(op[1]))
+    if k == 'rc_put':
+        return ('PUT', '/resource_classes/%s' % rc_name(op[2]), None, ver(op[1]))
+    if k == 'rc_rename':
+        return ('PUT', '/resource_classes/%s' % rc_name(op[2]), {'name': rc_name(op[3])}, ver(op[1]))
+    if k == 'rc_delete':
+        return ('DELETE', '/resource_classes/%s' % rc_name(op[2]), None, ver(op[1]))
+    if k == 'trait_put':
+        return ('PUT', '/traits/%s' % trait_name(op[2]), None, ver(op[1]))
+    if k == 'trait_delete':
+        return ('DELETE', '/traits/%s' % trait_name_or_unknown(op[2]), None, ver(op[1]))
     if k == 'rp_create':
         _, v, u, name, parent = op
         b = {'name': rp_name(name), 'uuid': uuid_of(u)}
@@ -329,7 +371,8 @@ def canon_dump(raw):
     out.append(sorted([v] for v in proj.values()))
     out.append(sorted([v] for v in user.values()))
     out.append(sorted([v] for v in ctype.values()))
-    out.append(sorted([r['id'], r['id']] for r in raw['resource_classes'] if r['id'] >= 10000))
+    out.append(sorted([r['id'], rc_tok(r['name'])] for r in raw['resource_classes']
+                      if r['name'].startswith('CUSTOM_')))
     out.append(sorted([trait_tok(n)] for n in trait.values() if n.startswith('CUSTOM_')))
     out.append(sorted([v] for v in agg.values()))
     out.append(sorted([rpt(r['resource_provider_id']), agg.get(r['aggregate_id'], -1)]
